@@ -10,7 +10,7 @@ id=$1; shift
 out=/tmp/seed-out/$id; wt=/tmp/seed-$id
 [ -s $out/patch.diff ] || { echo "no patch for $id"; exit 2; }
 s=/tmp/scratch-seed-$id; rm -rf $s; mkdir -p $s && rsync -a --exclude .git /repo/ $s/repo/
-dest=/verif/seeded/$id; mkdir -p $dest; cp $out/patch.diff $dest/patch.diff
+dest=/verif/seeded/$id${SEED_SUFFIX:-}; mkdir -p $dest; cp $out/patch.diff $dest/patch.diff
 # demo files (relative paths from the worktree)
 demos=$(cd $wt && git status --porcelain | awk '{print $2}' | grep seed_demo_ || true)
 for d in $demos; do mkdir -p $dest/demo/$(dirname $d); cp $wt/$d $dest/demo/$d; done
@@ -38,11 +38,11 @@ for p in $id "$@"; do
   if echo "$o" | grep -q "^VIOLATION"; then res="$res $p:CAUGHT($tier):$sigs"; else res="$res $p:MISSED:$(echo "$o" | tail -1)"; fi
 done
 echo "$id: check results:$res"
-python3 - "$id" "$suite" "$base_rc" "$mut_rc" "$res" <<'PY'
+python3 - "$id" "$suite" "$base_rc" "$mut_rc" "$res" "$dest" <<'PY'
 import json,sys
-id,suite,b,m,res=sys.argv[1:6]
+id,suite,b,m,res,dest=sys.argv[1:7]
 meta=json.load(open('/tmp/seed-out/%s/meta.json'%id))
 meta['confirmed']={'suite_passes_with_change':suite=='pass','demo_passes_without_change':b=='0','demo_fails_with_change':m!='0','checks':res.strip()}
-json.dump(meta,open('/verif/seeded/%s/meta.json'%id,'w'),indent=1)
+json.dump(meta,open(dest+'/meta.json','w'),indent=1)
 PY
 rm -rf $s
